@@ -248,9 +248,9 @@ pub struct Tier {
 
 pub fn tier(t: &str) -> Tier {
     if t == "thorough" {
-        Tier { parties: 48, generated: 6000, ill_typed: 400 }
+        Tier { parties: 48, generated: 40_000, ill_typed: 2_000 }
     } else {
-        Tier { parties: 12, generated: 700, ill_typed: 60 }
+        Tier { parties: 12, generated: 1_500, ill_typed: 100 }
     }
 }
 
